@@ -4,7 +4,8 @@ Local Open Scope N_scope.
 
 (* abstract values: strings are ranks (order-preserving for labels); an op id is (head14, full) *)
 Definition opid := (N * N)%type.
-Definition tgt_match (a b : opid) : bool := N.eqb (fst a) (fst b).       (* CombineIds keeps 14 chars of the secondary id *)
+Definition tgt_match (a b : opid) : bool := N.eqb (fst a) (fst b).       (* CombineIds keeps 14 chars of the secondary id: what a
+                                                                           combined id can tell apart; NOT how an edit finds its comment (SnapTrunc.v) *)
 Definition id_eqb (a b : opid) : bool := N.eqb (snd a) (snd b).
 
 Inductive op :=
@@ -63,14 +64,16 @@ Fixpoint set_extra_first (tgt : opid) (kv : list (N * N)) (ex : list (opid * lis
               else e :: set_extra_first tgt kv t
   end.
 
+(* op_edit_comment.go: the comment and its timeline item are matched on the FULL id of the operation that created the
+   comment (a comment item remembers it); other items are skipped *)
 Definition timeline_target (tl : list titem) (t : opid) : option titem :=
-  find (fun it => match it with TComment i | TOther i => tgt_match i t end) tl.
+  find (fun it => match it with TComment i => id_eqb i t | TOther _ => false end) tl.
 
 Definition upd_comment (t : opid) (msg : N) (files : list N) (cs : list comment) : list comment :=
-  (* first comment whose combined id matches *)
+  (* first comment created by the operation with that id *)
   (fix go (cs : list comment) := match cs with
      | [] => []
-     | c :: r => if tgt_match (c_id c) t then {| c_id := c_id c; c_author := c_author c; c_msg := msg; c_files := files; c_edits := S (c_edits c) |} :: r
+     | c :: r => if id_eqb (c_id c) t then {| c_id := c_id c; c_author := c_author c; c_msg := msg; c_files := files; c_edits := S (c_edits c) |} :: r
                  else c :: go r end) cs.
 
 Definition apply (s : snapshot) (o : op) : snapshot :=
@@ -94,7 +97,7 @@ Definition apply (s : snapshot) (o : op) : snapshot :=
          s_labels := s_labels s; s_actors := add_once au (s_actors s); s_parts := add_once au (s_parts s);
          s_timeline := s_timeline s ++ [TComment i]; s_ops := s_ops s; s_extra := s_extra s |}
   | OEditComment i au t msg files =>
-      (* the target must be the full id of an operation that created a comment (combined ids only keep 14 characters of it) *)
+      (* the target must be the full id of an operation that created a comment *)
       if negb (existsb (fun c => id_eqb (c_id c) t) (s_comments s)) then s else
       match timeline_target (s_timeline s) t with
       | Some (TComment _) =>
